@@ -100,3 +100,29 @@ func H_C04_prune_perm() {
 		return out
 	})
 }
+
+// H_C04_prune_intReject: one bounded integer draw through the rejection loops of genUintNBiased /
+// genUintNUnbiased (any range, any number of out-of-range samples that fits the stream), followed
+// by a second draw that must stay aligned after pruning.
+func H_C04_prune_intReject() {
+	min, max := nondetU64("min"), nondetU64("max")
+	assume(min <= max)
+	spanClass(max - min)
+	bias := nondetBool("bias")
+	pruneReplay(pruneL(13, 20), func(t *T) []uint64 {
+		a, _, _ := genUintRange(t.s, min, max, bias)
+		b := t.s.drawBits(64)
+		return []uint64{a, b}
+	})
+}
+
+// H_C04_prune_runeDie: a rune drawn through loadedDie.roll and genIndex (rejection sampling with
+// a miss rate of 3/8 for Rune()), twice.
+func H_C04_prune_runeDie() {
+	g := RuneFrom([]rune{'a', 'b', 'c', 'd', 'e'})
+	pruneReplay(pruneL(12, 16), func(t *T) []uint64 {
+		a := g.value(t)
+		b := g.value(t)
+		return []uint64{uint64(a), uint64(b)}
+	})
+}
